@@ -155,7 +155,7 @@ def run_batch_property(prop, tier, seed):
     violations = []
     infra = None
     for wave in range(st["waves"]):
-        out = batch.generate(plan, seed, st["count"], tier, wave)
+        out = batch.generate(plan, seed, st["count"], tier, wave, repo_grammars=(prop in batch.WITH_REPO_GRAMMARS and wave == 0))
         if out is None:
             infra = "genner failed"
             break
